@@ -25,4 +25,24 @@ PROPS = {
         "open_statements": ["string-level corollary less_numeric (p++a++r vs p++b++r') is checked by the numeric oracle; the theorem is stated on tokens (C20_digit_runs_by_value + C20_tokens_well_formed)"],
         "explanation": "order theorems for all byte strings over the model of natsort.Less; the model is tied to the code by differential runs through the verif hook and by the printed order of parsed modules",
     },
+    "C19": {
+        "targets": ["Properties/C19.vo"],
+        "level_text": "proof: for every chunk sequence (also one that depends on the bytes accepted so far, as WriteTo's separators do) and every writer obeying io.Writer, the reported count is the number of bytes delivered, the delivered bytes are the first count bytes of String(), the first error latches and nothing is written after it (unbounded theorems). Tie: the regenerated body of Module.WriteTo writes only through fw chunks (theorem over Gen/Printers.v); differential runs of WriteTo under writers failing at byte offset k against the extracted model; property oracle on the implementation at every chunk boundary +-1 and random offsets (every offset in the thorough tier).",
+        "level_note": "trusted: Coq kernel; fmtWriter/WriteTo chunk discipline is a hand model tied by correspondence; package fmt issues one Write per Fprint* call (hypothesis, observed by the chunk recorder); io.Writer contract is the theorem's hypothesis",
+        "rule": "a case is one (module, failure offset k); non-trivial = distinct (module digest, k); modules: repository testdata, generated modules with random subsets of the header/definition sections, empty and header-only constructed modules",
+        "trusted": ["package fmt performs one Write per Fprint*/Fprintf/Fprintln call", "io.Writer contract: n <= len(p), n < len(p) implies err != nil"],
+        "assumptions": ["writers obey the io.Writer contract; a short write without error loses bytes (boundary of the claim)"],
+        "open_statements": [],
+        "explanation": "unbounded theorem over chunk sequences and writers; chunk sequences of real modules are observed and replayed through the extracted model",
+    },
+    "C18": {
+        "targets": ["Properties/C18.vo"],
+        "level_text": "proof (finite, over the tables regenerated on every run from the 35 stringer / string2enum pairs and the declared constants): every declared value prints to a keyword that the parser-side converter maps back to the same value, and no two values of a type share a keyword; numeric calling conventions on the regenerated asm.irCallingConv body. Tie: regeneration + differential runs of every String()/FromString against the extracted tables, keywords through parse/print of minimal modules, flag sets (DIFlag, DISPFlag, AllocKind) on random subsets and all pairs through parse/print.",
+        "level_note": "trusted: Coq kernel; the translator's reading of the four stringer layouts (cross-checked by the differential run of all 653 keywords); the unbounded flag-subset statement is checked by the oracle on subsets, not yet a theorem",
+        "rule": "a case is one (type, value) keyword, one keyword through a minimal module, or one flag set; non-trivial = distinct (type, value) or distinct (family, flag value)",
+        "trusted": ["go/types constant evaluation of the declared enum constants"],
+        "assumptions": [],
+        "open_statements": ["for every subset S of the flag members: irDIFlags(split(diFlagsString(OR S))) = OR S (induction over the bit list) -- currently sampled by the flag_set oracle (random subsets, all singletons and pairs)"],
+        "explanation": "finite theorem over regenerated tables; the bound is the table",
+    },
 }
